@@ -74,4 +74,18 @@ theorem negMul_zeroP_left (k : Nat) (y : Poly) : negMul (zeroP k) y = zeroP y.le
     have : polyScale 0 y = zeroP y.length := by simp [polyScale, zeroP, List.eq_replicate_iff]
     rw [this, polyAdd_zero_zero]
 
+theorem polyAdd_polySub_cancel (t f : Poly) (h : t.length = f.length) : polyAdd (polySub t f) f = t := by
+  unfold polyAdd polySub
+  induction t generalizing f with
+  | nil => cases f <;> simp_all
+  | cons x xs ih =>
+    cases f with
+    | nil => simp at h
+    | cons y ys =>
+      simp only [List.zipWith_cons_cons]
+      rw [ih ys (by simpa using h)]
+      congr 1
+      omega
+
+
 end Hal
